@@ -130,3 +130,90 @@ Section Gen.
   Corollary gen_resolve_group rs t g : Q rs -> Q (fst (resolve_group rs h t g)).
   Proof. intros H. unfold resolve_group, group_value. apply g_group_loop; auto using gen_resolve. Qed.
 End Gen.
+
+(* the same principle without the restriction to scoped and transient descriptors (a singleton is constructed through
+   [create_top] during Build): two more elementary writes, the singleton table and the provider's disposal list *)
+Section GenAll.
+  Variable h : nat.
+  Variable Q : rstate -> Prop.
+  Hypothesis Q_cache : forall rs n i, Q rs -> Q (with_p rs (cache_set (rs_p rs) h n i)).
+  Hypothesis Q_track : forall rs i, Q rs -> Q (with_p rs (track_scope (rs_p rs) h i)).
+  Hypothesis Q_single : forall rs n i, Q rs -> Q (with_p rs (single_set (rs_p rs) n i)).
+  Hypothesis Q_tsingle : forall rs i, Q rs -> Q (with_p rs (track_single (rs_p rs) i)).
+  Hypothesis Q_ctor : forall rs rid args o, Q rs ->
+    Q (log (mkRs (bump_inv (rs_invs rs) rid) (rs_p rs) (rs_ev rs)) (EvCtor rid (get_inv (rs_invs rs) rid) args o)).
+  Hypothesis Q_cancel : forall rs, Q rs -> Q (log rs EvCancel).
+
+  Lemma ga_store life rs n i : Q rs -> Q (with_p rs (store life (rs_p rs) h n i)).
+  Proof.
+    intros H. unfold store. destruct life.
+    - apply (Q_tsingle (with_p rs (single_set (rs_p rs) n i))). apply Q_single. exact H.
+    - apply (Q_track (with_p rs (cache_set (rs_p rs) h n i))). apply Q_cache. exact H.
+    - apply Q_track. exact H.
+  Qed.
+  Lemma ga_share life rs n i : Q rs -> Q (with_p rs (share life (rs_p rs) h n i)).
+  Proof.
+    intros H. unfold share. destruct life; [apply Q_single; exact H|apply Q_cache; exact H|rewrite surj_rs; exact H].
+  Qed.
+  Lemma ga_share_all life l : forall rs i, Q rs -> Q (with_p rs (fold_left (fun p a => share life p h (ds_ident a) i) l (rs_p rs))).
+  Proof.
+    induction l as [|a l IH]; intros rs i H; cbn [fold_left]; [rewrite surj_rs; exact H|].
+    apply (IH (with_p rs (share life (rs_p rs) h (ds_ident a) i))). apply ga_share; assumption.
+  Qed.
+  Lemma ga_drop life rs i : Q rs -> Q (with_p rs (drop_output (rs_p rs) h life i)).
+  Proof. intros H. unfold drop_output. destruct life; [apply Q_tsingle|apply Q_track|apply Q_track]; exact H. Qed.
+  Lemma ga_fan_out ks : forall rs d inv, Q rs -> Q (with_p rs (fan_out (rs_p rs) h d inv ks)).
+  Proof.
+    induction ks as [|k rest IH]; intros rs d inv H; cbn [fan_out]; [rewrite surj_rs; exact H|].
+    destruct (output_desc (p_descs (rs_p rs)) d k).
+    - destruct (out_is_nil (ds_reg d) k && life_eqb (ds_life d) Singleton); [apply IH; assumption|].
+      apply (IH (with_p rs (store (ds_life d) (rs_p rs) h (ds_ident d0) (out_inst (ds_reg d) inv k)))). apply ga_store; assumption.
+    - apply (IH (with_p rs (drop_output (rs_p rs) h (ds_life d) (out_inst (ds_reg d) inv k)))). apply ga_drop; assumption.
+  Qed.
+
+  Section WithRec.
+    Variable recd : rstate -> nat -> desc -> rstate * rres.
+    Hypothesis recd_Q : forall rs d, Q rs -> Q (fst (recd rs h d)).
+
+    Lemma ga_create rs d : Q rs -> Q (fst (create recd rs h d)).
+    Proof.
+      intros H. unfold create.
+      destruct (r_form (ds_reg d)) as [t|io0 ps1 rets er|io0 ps1 fs er] eqn:Hf.
+      - cbn [fst]. unfold set_instance.
+        apply (ga_share_all (ds_life d) _ (with_p rs (store (ds_life d) (rs_p rs) h (ds_ident d) (IObj (r_id (ds_reg d)) 0 0 t)))).
+        apply ga_store; assumption.
+      - destruct (reg_params (ds_reg d)) as [inobj ps0].
+        pose proof (g_args_loop h Q recd recd_Q ps0 rs inobj [] H) as H1.
+        destruct (args_loop recd rs h inobj ps0 []) as [rs1 [args|e]]; cbn [fst] in *; [|exact H1].
+        set (inv := get_inv (rs_invs rs1) (r_id (ds_reg d))).
+        set (o := effective_outcome (ds_reg d) inv).
+        pose proof (Q_ctor rs1 (r_id (ds_reg d)) args o H1) as H2. fold inv in H2.
+        set (rs2' := log (mkRs (bump_inv (rs_invs rs1) (r_id (ds_reg d))) (rs_p rs1) (rs_ev rs1)) (EvCtor (r_id (ds_reg d)) inv args o)) in *.
+        assert (H3 : Q (if cancels (ds_reg d) inv then log rs2' EvCancel else rs2')) by (destruct (cancels (ds_reg d) inv); [apply Q_cancel|]; exact H2).
+        set (rs2 := if cancels (ds_reg d) inv then log rs2' EvCancel else rs2') in *.
+        destruct o; cbn [fst]; try exact H3.
+        destruct rets as [|t0 [|t1 ts]]; cbn [fst]; unfold set_instance.
+        + apply ga_store; assumption.
+        + apply (ga_share_all (ds_life d) _ (with_p rs2 (store (ds_life d) (rs_p rs2) h (ds_ident d) (out_inst (ds_reg d) inv 0)))).
+          apply ga_store; assumption.
+        + apply ga_fan_out; assumption.
+      - destruct (reg_params (ds_reg d)) as [inobj ps0].
+        pose proof (g_args_loop h Q recd recd_Q ps0 rs inobj [] H) as H1.
+        destruct (args_loop recd rs h inobj ps0 []) as [rs1 [args|e]]; cbn [fst] in *; [|exact H1].
+        set (inv := get_inv (rs_invs rs1) (r_id (ds_reg d))).
+        set (o := effective_outcome (ds_reg d) inv).
+        pose proof (Q_ctor rs1 (r_id (ds_reg d)) args o H1) as H2. fold inv in H2.
+        set (rs2' := log (mkRs (bump_inv (rs_invs rs1) (r_id (ds_reg d))) (rs_p rs1) (rs_ev rs1)) (EvCtor (r_id (ds_reg d)) inv args o)) in *.
+        assert (H3 : Q (if cancels (ds_reg d) inv then log rs2' EvCancel else rs2')) by (destruct (cancels (ds_reg d) inv); [apply Q_cancel|]; exact H2).
+        set (rs2 := if cancels (ds_reg d) inv then log rs2' EvCancel else rs2') in *.
+        destruct o; cbn [fst]; try exact H3.
+        apply ga_fan_out; assumption.
+    Qed.
+  End WithRec.
+
+  Theorem gen_create_top rs d : Q rs -> Q (fst (create_top rs h d)).
+  Proof.
+    intros H. unfold create_top. apply ga_create; [|exact H].
+    intros rs0 d0 H0. apply (gen_resolve h Q Q_cache Q_track Q_ctor Q_cancel); exact H0.
+  Qed.
+End GenAll.
